@@ -143,6 +143,10 @@ func c01(c *Ctx) {
 			c.Count(fmt.Sprintf("inputs=%d", len(it.g.Inputs)))
 			c.Debugf("%s", it.g.Pretty())
 			vline := fmt.Sprintf("validate %s %s %s", it.gp.ProtoGrammar(), tablesStr(t, nt), b2s(opt))
+			if it.gp.Opts.Minimize {
+				// merged states are not the canonical LR(0) collection: completeness certificate skipped
+				vline += " nocompl"
+			}
 			if v := c.Lean([]string{vline}); strings.Contains(v[0], "[C01-shared-final-state]") {
 				knownClass[it.gp.Name] = true
 				c.Count("known class: shared final state")
